@@ -1950,6 +1950,10 @@ class Array(DaskMethodsMixin):
             # e.g. this is valid in numpy but raises here:
             # x = da.array([1,2,3])
             # x[da.array([True, True, False])] = [4, 5]
+            if value.ndim and value.size == 1:
+                # A single element is broadcast like a scalar; the shape of
+                # the selection it would have to be broadcast to is unknown
+                value = value.reshape(())
             if value.ndim:
                 value = broadcast_to(value, self[key].shape)
 
